@@ -79,6 +79,67 @@ def split_events(ctx):
     return ev
 
 
+def assoc_events(ctx):
+    """keys from the independent encoder, some with components a reader must skip (a version-5 subkey, a packet of an
+    unassigned tag) followed by signatures: which signatures does PGPy hold on which component, in memory and after export."""
+    pgpy = import_pgpy()
+    ev = []
+    for variant in ('plain', 'v5-subkey-between', 'unknown-tag-after-uid', 'v5-subkey-last', 'v5-subkey-first', 'trust-and-v5', 'two-unknown'):
+        for secret in (False, True):
+            fk = build.ForeignKey('ed25519')
+            s1 = enc.Recipient('cv25519', created=fk.created + 1)
+            s2 = build.ForeignKey('ed25519', created=fk.created + 2)
+            uids = [b'Assoc One <a1@example.org>', b'Assoc Two <a2@example.org>']
+            whole = build.transferable_key(fk, uids, subkeys=[(s1, 0x0C), (s2, 0x02)], secret=secret, trust_packets=(variant == 'trust-and-v5'))
+            pk = build.read_packets(whole)
+            # an unreadable subkey (version 5 layout: version, time, algorithm, 4-octet material length, material) with a binding-like and a
+            # revocation-like signature by the primary over it
+            v5 = b'\x05' + struct.pack('>I', fk.created + 3) + bytes([22]) + struct.pack('>I', 43) + bytes([9]) + build.OID['ed25519'] + build.mpi_bytes(b'\x40' + bytes(range(32)))
+            v5pk = build.pkt(14, v5)
+            b5, _ = build.sig_packet(fk, 0x18, 'sha256', [build.subpacket(27, bytes([0x02]))], [], build.subject_octets(0x18, primary=fk.pub_body, sub=v5), created=fk.created + 30)
+            r5, _ = build.sig_packet(fk, 0x28, 'sha256', [build.subpacket(29, b'\x00gone')], [], build.subject_octets(0x28, primary=fk.pub_body, sub=v5), created=fk.created + 31)
+            unk = build.pkt(60, b'private or experimental packet')
+            su, _ = build.sig_packet(fk, 0x10, 'sha256', [], [], build.subject_octets(0x10, primary=fk.pub_body, uid=b'unknown'), created=fk.created + 32)
+            raws = [r for t, b, r in pk]
+            tags = [t for t, b, r in pk]
+            subidx = [j for j, t in enumerate(tags) if t in (7, 14)]
+            uididx = [j for j, t in enumerate(tags) if t == 13]
+            ins = {}
+            if variant in ('v5-subkey-between', 'trust-and-v5', 'two-unknown'):
+                ins[subidx[1]] = v5pk + b5 + r5
+            if variant == 'v5-subkey-first':
+                ins[subidx[0]] = v5pk + b5 + r5
+            if variant == 'v5-subkey-last':
+                ins[len(raws)] = v5pk + b5 + r5
+            if variant in ('unknown-tag-after-uid', 'two-unknown'):
+                ins[uididx[1]] = unk + su
+            blob = b''.join(ins.get(j, b'') + r for j, r in enumerate(raws)) + ins.get(len(raws), b'')
+            e = {'k': 'assoc', 'label': '%s %s' % (variant, 'secret' if secret else 'public'), 'blob': octets(blob), 'got': [], 'reexport': []}
+            with warnings.catch_warnings():
+                warnings.simplefilter('ignore')
+                try:
+                    k = pgpy.PGPKey.from_blob(blob)[0]
+
+                    def sigbodies(sigs):
+                        return [octets(build.read_packets(bytes(s_))[0][1]) for s_ in sigs if not s_.embedded]   # embedded back-signatures live inside their binding signature
+
+                    def keycomp(kk):
+                        body = build.read_packets(bytes(kk._key))[0][1]
+                        return octets(body[:build.pub_portion_len(body)])
+                    e['got'].append({'comp': keycomp(k), 'sigs': sigbodies(k.__sig__)})
+                    for u in list(k.userids) + list(k.userattributes):
+                        e['got'].append({'comp': octets(build.read_packets(bytes(u._uid))[0][1]), 'sigs': sigbodies(u.__sig__)})
+                    for sk in k.subkeys.values():
+                        e['got'].append({'comp': keycomp(sk), 'sigs': sigbodies(sk.__sig__)})
+                    e['reexport'] = octets(bytes(k))
+                    e['raised'] = False
+                except Exception as ex:
+                    e['raised'] = True
+                    e['exc'] = repr(ex)[:120]
+            ev.append(e)
+    return ev
+
+
 def run(ctx):
     import_pgpy()
     ctx.assumptions += ['TLC/SANY', 'JSON marshalling', 'each issued signature is tagged with its ledger position through the policy URI subpacket',
@@ -89,10 +150,11 @@ def run(ctx):
         tr = traces[t]
         hist = [(e['act']['op'], e['act']['a'], e['act']['tag']) for e in tr[:step]]
         ctx.violation(clause, 'last-op=%s view=%s' % (hist[-1][0], vw), {'history': hist, 'view': vw})
-    ev = split_events(ctx)
+    ev = split_events(ctx) + assoc_events(ctx)
     for e in ev:
         ctx.case(('split', e['label']))
     ctx.sample({k: v for k, v in ev[3].items() if k not in ('blob', 'primaries')})
+    ctx.extra['association_events'] = sum(1 for e in ev if e['k'] == 'assoc')
     rej2 = ctx.judge('Trace_Split', ev)
     ctx.traces += len(ev) - len(rej2)
     ctx.extra['split_events'] = len(ev)
@@ -100,6 +162,9 @@ def run(ctx):
         e = ev[idx]
         if clause.startswith('harness'):
             raise MachineryError('TLC rejected the harness claims about a concatenation: %s' % e['label'])
+        if e['k'] == 'assoc':
+            ctx.violation(clause, 'import of a foreign key: %s' % e['label'], {'label': e['label'], 'exc': e.get('exc'), 'blob': bytes(e['blob']).hex()})
+            continue
         ctx.violation(clause, 'concatenation %s' % ('both halves of one key' if len({n[0] for n in e['label'].split(' ')[0].split('+')}) < len(e['label'].split(' ')[0].split('+')) else 'different keys'),
                       {'label': e['label'], 'got': [dict(g, fpr=bytes(g['fpr']).hex()) for g in e['got']], 'exc': e.get('exc')})
     return ctx.finish(level='model_checking',
